@@ -33,7 +33,9 @@ AQ = ["quantized_relu(6,2)", "quantized_bits(6,2,1)", "quantized_relu(4,1)", "qu
 
 
 PAIRS = [("quantized_relu_po2(4)", "ternary(alpha=1.0)"), ("quantized_relu_po2(4)", "binary(alpha=1.0)"),
-         ("quantized_relu_po2(3,max_value=1)", "ternary(alpha=1.0)"), ("quantized_po2(4)", "binary(alpha=1.0)")]
+         ("quantized_relu_po2(3,max_value=1)", "ternary(alpha=1.0)"), ("quantized_po2(4)", "binary(alpha=1.0)"),
+         # one-bit relus in front of a fixed-point kernel: (1,0) emits {0, 1/2} (an ordinary one-bit format), (1,1) is the {0,1} gate
+         ("quantized_relu(1,0)", "quantized_bits(4,0,1,alpha=1.0)"), ("quantized_relu(1,1)", "quantized_bits(6,2,1,alpha=1.0)")]
 
 
 def pick(rng, l):
